@@ -178,7 +178,9 @@ uint64_t cmb_timeseries_summarize(const struct cmb_timeseries *tsp,
     cmb_wtdsummary_initialize(wsp);
     const uint64_t un = cmb_timeseries_count(tsp);
     cmb_assert_debug(un > 0u);
-    for (uint64_t ui = 0u; ui < un - 1u; ui++) {
+    /* All samples: the one that closes the series has weight zero and does
+     * not count, but after cmb_timeseries_sort_x() it is not the last one */
+    for (uint64_t ui = 0u; ui < un; ui++) {
         const double x = dsp->xa[ui];
         const double w = tsp->wa[ui];
         (void)cmb_wtdsummary_add(wsp, x, w);
@@ -220,8 +222,9 @@ static void timeseries_histogram_fill(struct cmi_dataset_histogram *hp,
     cmb_assert_debug(n > 0u);
     cmb_assert_debug(xa != NULL);
 
-    /* Distribute x-values to bins */
-    for (uint64_t ui = 0u; ui < n - 1u; ui++) {
+    /* Distribute x-values to bins. The closing sample adds its zero weight,
+     * wherever a sort by value has placed it. */
+    for (uint64_t ui = 0u; ui < n; ui++) {
         /* In what bin does this x-value belong? */
         uint16_t bin;
         const double x = xa[ui];
